@@ -72,7 +72,7 @@ pub fn run() -> i32 {
     let mut ctx = Ctx::new("C09", "exploration");
     let seed = ctx.seed;
     let tier = ctx.tier;
-    ctx.rule = "per-dimension exhaustive grids around a common centre, each a full product, every cell compared with libsodium's argon2_hash (and crypto_pwhash where it accepts the parameters): G1 output length every 16..=1100 x {Argon2i, Argon2id} x (t,m) in {(1,8),(3,8),(2,13),(1,37),(2,64)}; G2 memory every 8..=129 KiB + {255,256,257,1000,1024,4099} (thorough: + 16 MiB, 64 MiB) x passes 1..=6 x type, plus memlimit values that are not a multiple of 1 KiB; G1xG2 restricted to outlen in {16,32,63,64,65,96,97,128,129} x m<=33 x t<=3; G3 password lengths {0,1,8,63,64,65,127,128,129,300} (thorough every 0..=300) x salt lengths {8,9,15,16,17,32,64} x type; G4 out-of-range parameters must return Err without panicking; object API: PwHash::hash_with_salt == libsodium, verify accepts the password and rejects every single-byte mutation, the empty and the extended password; non-trivial = cell hashed by both implementations".into();
+    ctx.rule = "per-dimension exhaustive grids around a common centre, each a full product, every cell compared with libsodium's argon2_hash (and crypto_pwhash where it accepts the parameters): G1 output length every 16..=1100 x {Argon2i, Argon2id} x (t,m) in {(1,8),(3,8),(2,13),(1,37),(2,64)}; G2 memory every 8..=129 KiB + {255,256,257,1000,1024,4099} (thorough: + 16 MiB, 64 MiB) x passes 1..=6 x type, pass counts at the edges of 8/16-bit types (7..1025; thorough to 65537) at 8 and 13 KiB, plus memlimit values that are not a multiple of 1 KiB; G1xG2 restricted to outlen in {16,32,63,64,65,96,97,128,129} x m<=33 x t<=3; G3 password lengths {0,1,8,63,64,65,127,128,129,300} (thorough every 0..=300) x salt lengths {8,9,15,16,17,32,64} x type; G4 out-of-range parameters must return Err without panicking; object API: PwHash::hash_with_salt == libsodium, verify accepts the password and rejects every single-byte mutation, the empty and the extended password; non-trivial = cell hashed by both implementations".into();
     ctx.assume("reference: libsodium's argon2_hash symbol (version 1.3, 1 lane) and crypto_pwhash; no full cross-product of all dimensions (stated per-dimension)");
     let pwd8 = cval(seed, 3, 8);
     let salt16 = kval(seed ^ 0x9, 3, 16);
@@ -127,6 +127,24 @@ pub fn run() -> i32 {
         }
     });
     ctx.absorb("G2-memory", st);
+
+    // G2': pass counts at the edges of narrow integer types (8 and 16 bits) at minimal memory
+    let ts: Vec<u32> = match tier {
+        Tier::Quick => vec![7, 8, 15, 16, 17, 127, 128, 129, 254, 255, 256, 257, 258, 511, 512, 513, 1023, 1024, 1025],
+        Tier::Thorough => vec![7, 8, 15, 16, 17, 127, 128, 129, 254, 255, 256, 257, 258, 511, 512, 513, 1023, 1024, 1025, 4095, 4096, 4097, 32767, 32768, 32769, 65535, 65536, 65537],
+    };
+    let st = par_units(&ts, |&t, st| {
+        for typ in [1, 2] {
+            for m in [8u32, 13] {
+                if t > 5000 && m != 8 {
+                    continue;
+                }
+                check(st, "G2-passes", 32, &pwd8, &salt16, t, m, 0, typ);
+            }
+        }
+    });
+    ctx.note("pass_count_edges", json!(ts));
+    ctx.absorb("G2-passes", st);
 
     // G3
     let pls: Vec<usize> = match tier {
